@@ -3,6 +3,7 @@ package harness
 import (
 	"errors"
 	"sort"
+	"strings"
 	"time"
 
 	"verif.local/sim/simrt"
@@ -30,6 +31,13 @@ type SimStorage struct {
 	OnFault func(op string)
 	// OnOp is called (with the token) after every mutation, for invariants.
 	OnOp func(op, key string)
+	// KeyOracle, if set, is the oracle id reported when a key handed to Set later
+	// reads differently (a zero-copy view of a recycled request buffer). The
+	// storage itself always keeps private copies, so its own behaviour stays
+	// deterministic either way.
+	KeyOracle   string
+	handedKeys  []guardedKey
+	keyFailed   bool
 	expiredGets []expiredGet
 	DeletedKeys []string
 	// Delay is extra simulated time per call.
@@ -70,8 +78,22 @@ func (st *SimStorage) sz(n int) int {
 	return n
 }
 
+func (st *SimStorage) checkKeys() {
+	if st.KeyOracle == "" || st.keyFailed {
+		return
+	}
+	for _, k := range st.handedKeys {
+		if k.orig != k.copy {
+			st.keyFailed = true
+			st.S.Fail(st.KeyOracle, "the key %q handed to Storage.Set no longer reads the same: it is a zero-copy view of a recycled request buffer, a storage that keeps its keys loses or mixes the entries", k.copy)
+			return
+		}
+	}
+}
+
 func (st *SimStorage) pre(op, key string) {
 	st.Ops++
+	st.checkKeys()
 	simrt.Yield(100)
 	if st.DelayPermille > 0 && len(st.Delays) > 0 && st.S.Chance(st.DelayPermille) {
 		d := st.Delays[st.S.Draw(len(st.Delays))]
@@ -136,6 +158,10 @@ func (st *SimStorage) Set(key string, val []byte, exp time.Duration) error {
 	} else {
 		e.val = append([]byte(nil), val...)
 	}
+	if st.KeyOracle != "" && len(st.handedKeys) < 256 {
+		st.handedKeys = append(st.handedKeys, guardedKey{orig: key, copy: strings.Clone(key)})
+	}
+	key = strings.Clone(key)
 	st.data[key] = e
 	if st.S.Tracing() {
 		st.S.Logf("%s SET %q %d bytes ttl=%v", st.Name, key, st.sz(len(val)), exp)
